@@ -66,6 +66,15 @@ def gen(rng, tier):
             for cont in ("stack", "heap", "locked", "lockedro"):
                 cs.append(Case("tryfrom %s %d %s" % (cont, n, hx(p)), cls="container-build-wrong-length/" + cont, expect="err",
                                meta={"why": "a %d-byte %s container built from %d bytes" % (n, cont, k)}))
+    # … and the same serialised document decodes alike into every fixed-length container: exact length accepted, any other element
+    # count refused (no padding, no prefix) — text JSON, JSON via Value, JSON string, bincode, slice and reader routes
+    for n in (16, 32):
+        for k in sorted({0, 1, 3, n - 1, n, n + 1, 2 * n}):
+            p = rbytes(rng, k)
+            for fmt in ("json", "bincode", "jsonstr", "jsonval", "bincodeR", "jsonstrR", "jsonR"):
+                for cont in ("stack", "locked"):
+                    cs.append(Case("serde_fixed %s %d %s %s" % (cont, n, fmt, hx(p)), cls="container-decode/%s/%s" % (cont, fmt), expect="ok" if k == n else "err",
+                                   meta={"why": "a %d-byte %s container decoded (%s) from %d bytes" % (n, cont, fmt, k)}))
     # resize and clone behave like Vec's in every resizable container (shrink to a prefix, grow with zeros, clone keeps the bytes)
     for n in (0, 1, 16, 33, 100, 4096, 4097):
         data = rbytes(rng, n)
